@@ -343,6 +343,7 @@ int ABT_eventual_set(ABT_eventual eventual, void *value, int nbytes)
     } else {
         ABTD_spinlock_release(&p_eventual->lock);
         /* It has been ready.  Error. */
+        ABTI_VERIF_COV(ABTI_VERIF_C_EVENTUAL_SET_REJECTED);
         ABTI_HANDLE_ERROR(ABT_ERR_EVENTUAL);
     }
 
